@@ -1,2 +1,10 @@
 import GoframeModel.Props.C02
-#print axioms Goframe.C02.nrows_any_column
+#print axioms Goframe.C02.alloc_sep
+#print axioms Goframe.C02.storeCell_frame
+#print axioms Goframe.C02.appendRow_frame
+#print axioms Goframe.C02.dropRow_frame
+#print axioms Goframe.C02.fillNa_frame
+#print axioms Goframe.C02.replaceData_frame
+#print axioms Goframe.C02.head_pinned_aliases
+#print axioms Goframe.C02.head_copy_is_safe
+#print axioms Goframe.C02.step_changes_only_target
